@@ -194,7 +194,7 @@ def run(ctx: Ctx, rep: Report) -> None:
     rep.rule("C07-R1", "the id placed in the request PDU and the id validated are one value (single clock read)", floor=4)
     rep.rule("C07-R2", "validation of the response id is unavoidable in the sender-calling method; the validator is exact", floor=3)
     rep.rule("C07-R3", "every network sender call is a pass-through closure or is followed by id validation", floor=3)
-    rep.rule("C07-R4", "community security models refuse a wrong version or community before returning the PDU", floor=6)
+    rep.rule("C07-R4", "community security models refuse a wrong version or community before returning the PDU; they are the models their message-processing model installs", floor=12)
     rep.rule("C07-R5", "discovery: probe ids are one value and are validated before discovery data is built", floor=3)
     rep.level = "proof"
     rep.assumptions += [
@@ -301,9 +301,23 @@ def run(ctx: Ctx, rep: Report) -> None:
         want_version = rfc.COMMUNITY_VERSION_BY_SECMODEL[ident]
         for cls in [c for c in ctx.u.classes.values() if c.module is mod and ctx.r.is_subclass(c, sm_base)]:
             check_community_model(ctx, rep, cls, want_version)
+        # the community model is the one the message-processing model of that version installs for itself
+        from .common import check_incoming_model
+
+        try:
+            check_incoming_model(ctx, rep, "C07-R4", want_version, ident)
+        except AnalysisError as exc:
+            rep.undecided("C07-R4", f"puresnmp_plugins/mpm (identifier {ident})", "the message-processing model of this version exists", str(exc))
 
     # ---------------------------------------------------------------- R5
     check_discovery(ctx, rep)
+    # the version / community test above is made by the plug-ins of the message-processing model in use: it only
+    # speaks for the credentials the caller configured if a change of credential class replaces that model
+    from . import c18
+
+    rep.rule("C07-R6", "the plug-ins that test version and community are those selected by the credentials in use (a change of credential class replaces the message-processing model)", floor=1)
+    sub = ctx.sub_run("c18", rep)
+    rep.adopt_rules(sub, "C07-R6", ["C18-R4"])
 
 
 def check_community_model(ctx: Ctx, rep: Report, cls: ClassInfo, want_version: int, rule: str = "C07-R4") -> None:
@@ -352,6 +366,15 @@ def check_community_model(ctx: Ctx, rep: Report, cls: ClassInfo, want_version: i
         def classify(cmp: ast.Compare) -> Optional[bool]:
             cmp = defs.expand(cmp)  # type: ignore[assignment]
             left, right = cmp.left, cmp.comparators[0]
+            # a community message is SEQUENCE { version, community, PDU }: three elements in every scenario
+            for a, b, flip in ((left, right, False), (right, left, True)):
+                if isinstance(a, ast.Call) and isinstance(a.func, ast.Name) and a.func.id == "len" and len(a.args) == 1 and norm(strip_casts(a.args[0])) == msg_param and isinstance(b, ast.Constant) and isinstance(b.value, int):
+                    import operator as _op
+
+                    table = {ast.Eq: _op.eq, ast.NotEq: _op.ne, ast.Lt: _op.lt, ast.LtE: _op.le, ast.Gt: _op.gt, ast.GtE: _op.ge}
+                    fn_ = table.get(type(cmp.ops[0]))
+                    if fn_ is not None:
+                        return fn_(b.value, 3) if flip else fn_(3, b.value)
             idx_l, idx_r = field_index(left), field_index(right)
             op = cmp.ops[0]
             which = None
@@ -427,9 +450,30 @@ def check_discovery(ctx: Ctx, rep: Report) -> None:
     fn = ctx.r.method(usm_cls, "send_discovery_message")
     if fn is None or fn.cls is None or fn.cls.module.external or fn.cls.name == "SecurityModel":
         raise AnalysisError("USM does not implement send_discovery_message")
-    defs = ctx.defs(fn)
     handler_param = fn.params[1]
-    sends = [n for n in own_nodes(fn.node) if isinstance(n, ast.Call) and isinstance(n.func, ast.Name) and n.func.id == handler_param]
+
+    def probe_calls(f: FuncInfo, param: str) -> List[ast.Call]:
+        return [n for n in own_nodes(f.node) if isinstance(n, ast.Call) and isinstance(n.func, ast.Name) and n.func.id == param]
+
+    # the exchange may live in a helper the entry point hands the transport to (self._discover(transport_handler))
+    for _ in range(3):
+        if probe_calls(fn, handler_param):
+            break
+        nxt = None
+        for n in own_nodes(fn.node):
+            if not isinstance(n, ast.Call) or not any(isinstance(a, ast.Name) and a.id == handler_param for a in list(n.args) + [k.value for k in n.keywords]):
+                continue
+            for callee in ctx.r.callees(fn, n):
+                if isinstance(callee, FuncInfo) and not callee.module.external and callee is not fn:
+                    bound = bind_call_args(n, callee.params)
+                    for pname, arg in bound.items():
+                        if isinstance(arg, ast.Name) and arg.id == handler_param:
+                            nxt = (callee, pname)
+        if nxt is None:
+            break
+        fn, handler_param = nxt
+    defs = ctx.defs(fn)
+    sends = probe_calls(fn, handler_param)
     site = fn.site()
     if len(sends) != 1:
         rep.undecided("C07-R5", site, "discovery sends exactly one probe", f"{len(sends)} transport calls found")
